@@ -228,7 +228,7 @@ def g5(repo, res):
                     names.add(tgt)
                     changed = True
         return names
-    ddef = derived({"default_settings"})
+    ddef = derived({fn.args.args[1].arg if len(fn.args.args) > 1 else "default_settings", "default_settings"})
     dkw = derived({"kwargs"}) - {"default_settings"}
     ups = [c for c in ast.walk(fn) if isinstance(c, ast.Call) and isinstance(c.func, ast.Attribute) and c.func.attr == "update"
            and isinstance(c.func.value, ast.Name) and c.func.value.id == svar]
@@ -697,6 +697,82 @@ NO_MATCH_TRIAGED = {
 }
 
 
+def g20_g21(repo, res):
+    """G20 a style / defaults class hands every named constructor parameter on to its base constructor (`super().__init__(a=a, b=b, **kwargs)`):
+        `update()` and `reset()` rebuild sub-objects through their constructors, so a parameter that is swallowed loses the whole sub-tree
+        behind it on every update from above.
+    G21 `set_children_styles` applies the values to *every* child: the update of the child's own style is reached on every path through the
+        loop body (a nested collection is recursed into AND styled itself)."""
+    from flow import BaseClient, Flow
+    n = 0
+    for cl in repo.cls_by_key.values():
+        if cl.mod.name not in STYLE_MODS:
+            continue
+        init = cl.methods.get("__init__")
+        if init is None:
+            continue
+        named = [a.arg for a in init.args.args[1:] + init.args.kwonlyargs]
+        sup = [c for c in ast.walk(init) if isinstance(c, ast.Call) and isinstance(c.func, ast.Attribute) and c.func.attr == "__init__"
+               and isinstance(c.func.value, ast.Call) and getattr(c.func.value.func, "id", "") == "super"]
+        if not named or not sup:
+            continue
+        n += 1
+        passed = set()
+        for c in sup:
+            for a in list(c.args) + [k.value for k in c.keywords]:
+                for x in ast.walk(a):
+                    if isinstance(x, ast.Name):
+                        passed.add(x.id)
+        # a parameter may also be stored / used by the constructor itself
+        used_else = {x.id for st in init.body for x in ast.walk(st) if isinstance(x, ast.Name) and isinstance(x.ctx, ast.Load)} - passed
+        missing = [p_ for p_ in named if p_ not in passed and p_ not in used_else]
+        res.ob(f"G20:{cl.name}.__init__", not missing, {"rule": "G20", "class": cl.name, "named_parameters": named, "not_forwarded": missing} if missing or n % 8 == 0 else None,
+               nontrivial=bool(missing))
+        for p_ in missing:
+            res.add(Finding("G20", cl.mod.rel, f"{cl.name}.__init__", sup[0], f"the constructor accepts `{p_}` but does not hand it to the base constructor: update()/reset() rebuild this "
+                            f"object through its constructor, so every value under `{p_}` is lost whenever the tree is updated from above", sup[0].lineno))
+    res.require(n >= 20, f"G20: only {n} style / defaults constructors with named parameters found")
+    # ---- G22: the live defaults tree is never captured in a default argument value: `def f(.., style=default_settings.display.style)` is
+    #           evaluated once at import; reset() / update() from above replace those objects, and the function keeps resolving defaults from the
+    #           orphaned first tree
+    n22 = 0
+    for m_, qn_, f_, cl_ in repo.all_functions():
+        for d_ in list(f_.args.defaults) + [x for x in f_.args.kw_defaults if x is not None]:
+            n22 += 1
+            live = any(isinstance(x, ast.Name) and x.id in ("default_settings", "defaults") for x in ast.walk(d_)) and isinstance(d_, ast.Attribute)
+            if live:
+                res.ob(f"G22:{qn_}:{norm(d_)}", False)
+                res.add(Finding("G22", m_.rel, qn_, d_, "a default argument value reads the defaults tree at import time: after defaults.reset() or an update from above the "
+                                "function still resolves defaults from the old objects", d_.lineno))
+    res.ob("G22:no default argument captures the defaults tree", True, {"rule": "G22", "default_values_scanned": n22}, nontrivial=False)
+    # ---- G21
+    col = repo.cls("BaseCollection")
+    fn = col.methods.get("set_children_styles")
+    res.require(fn is not None, "anchor vanished: BaseCollection.set_children_styles")
+    loops = [l for l in ast.walk(fn) if isinstance(l, ast.For) and isinstance(l.target, ast.Name) and "children" in ast.unparse(l.iter)]
+    res.require(loops, "anchor vanished: loop over the children in set_children_styles")
+
+    class Cl(BaseClient):
+        def __init__(self, var):
+            self.var = var
+
+        def call_may_raise(self, call):
+            return False
+
+        def transfer(self, s_, S):
+            for c in ast.walk(s_):
+                if isinstance(c, ast.Call) and isinstance(c.func, ast.Attribute) and c.func.attr == "update" and ast.unparse(c.func.value) in (f"{self.var}.style", f"{self.var}._style"):
+                    return frozenset()
+            return S
+    for lp in loops:
+        S, exits = Flow(Cl(lp.target.id)).block(lp.body, frozenset({"TODO"}))
+        ok = not S and not any(St for k, St, n_ in exits if k in ("continue", "break", "return"))
+        res.ob("G21:set_children_styles styles every child", ok, {"rule": "G21", "loop": norm(lp.iter)})
+        if not ok:
+            res.add(Finding("G21", col.mod.rel, "BaseCollection.set_children_styles", lp, "a path through the loop body skips the update of the child's own style: a nested collection "
+                            "keeps its old values (its own model, path and legend) although the last assignment should win", lp.lineno))
+
+
 def g19(repo, res):
     """G19 invalid style names are rejected on every public path: MagicProperties.update drops unknown names silently when called with
     `_match_properties=False`; only the triaged internal sites (values that come from validated trees / tables) may do that"""
@@ -734,6 +810,7 @@ def run(repo, res, tier):
     g15(repo, res)
     g17_g18(repo, res)
     g19(repo, res)
+    g20_g21(repo, res)
     import rules_domain
     rules_domain.sets_are_collections(repo, res, 'G16')
     res.assumptions += ["property tree links are the validate_property_class(val, name, Class, self) calls in the setters",
